@@ -1,9 +1,7 @@
 # Property table for vf.py: which overlay files each check needs (kept minimal per property so that a
 # change to an unrelated internal function cannot break an unrelated check's build).
+# One file per property under props.d/ (so properties can be added independently).
+import glob as _glob
 J = ["vf_json_test.go"]
-
-prop("C01", files={"root": ["vf_c01_test.go"]}, shared={"root": J},
-     fuzz=[("root", "FuzzVF_C01", 150)],
-     assumptions=["reference parser/encoder (vf_json_test.go) is a faithful transcription of RFC 8259 + the Matrix canonical JSON appendix",
-                  "number tokens other than -0 are part of a value's identity (1, 1.0, 1e0 are not treated as presentations of one value)",
-                  "texts with duplicate keys, lone surrogate escapes or invalid UTF-8 are outside the statement's domain: only no-panic is required"])
+for _f in sorted(_glob.glob(os.path.join(VERIF, "props.d", "*.py"))):
+    exec(open(_f).read())
